@@ -354,13 +354,8 @@ func buildExpressionEx(input map[string]interface{}, depth int) (string, bool, e
 
 				return strconv.Quote(valueType), true, nil
 			case float64:
-				if math.Abs(valueType) >= 1<<63 {
-					// too big for an integer literal, must be written as a real.
 
-					return strconv.FormatFloat(valueType, 'e', -1, 64), true, nil
-				}
-
-				return strconv.FormatFloat(valueType, 'f', -1, 64), true, nil
+				return formatNumber(valueType), true, nil
 			case bool:
 				if valueType {
 
@@ -378,6 +373,17 @@ func buildExpressionEx(input map[string]interface{}, depth int) (string, bool, e
 	}
 
 	return "", false, fmt.Errorf("boolean expression cannot be empty")
+}
+
+// formatNumber writes a JSON number as a GRL literal: an integral value stays an integer literal,
+// whatever its magnitude, unless it is too big for one and must be written as a real.
+func formatNumber(number float64) string {
+	if math.Abs(number) >= 1<<63 {
+
+		return strconv.FormatFloat(number, 'e', -1, 64)
+	}
+
+	return strconv.FormatFloat(number, 'f', -1, 64)
 }
 
 func buildCompoundOperator(o interface{}, depth int, operator string) (string, bool, error) {
@@ -452,7 +458,7 @@ func parseCallOperand(o interface{}) (string, error) {
 		return operandType, nil
 	case float64:
 
-		return fmt.Sprint(operandType), nil
+		return formatNumber(operandType), nil
 	case bool:
 		if operandType {
 
@@ -521,7 +527,7 @@ func parseOperand(o interface{}, noWrap bool, negation bool) (string, error) {
 		return operandType, nil
 	case float64:
 
-		return fmt.Sprint(operandType), nil
+		return formatNumber(operandType), nil
 	case bool:
 
 		if operandType {
